@@ -89,6 +89,10 @@ def arr_valfn(arr):
     return f
 
 
+def lead_done(lead):
+    return any(v is None for v in lead)
+
+
 class ExtLib:
     def __init__(self, interp):
         self.I = interp
@@ -338,7 +342,8 @@ class ExtLib:
             return -to_pw(vals[0])
         if name in ("abs", "fabs"):
             return poly.fn("abs", to_pw(vals[0]))
-        if name in ("sqrt", "log", "sin", "cos", "exp", "floor"):
+        if name in ("sqrt", "log", "sin", "cos", "exp", "floor", "rint", "ceil", "trunc"):
+            # (rint / ceil / trunc are opaque functions of their argument: equal only to themselves, never to floor)
             return poly.fn(name, to_pw(vals[0]))
         if name in ("eq", "ne", "lt", "le", "gt", "ge"):
             a, b = to_pw(vals[0]), to_pw(vals[1])
@@ -523,6 +528,8 @@ class ExtLib:
             self.reductions = getattr(self, "reductions", {})
             self.reductions[name] = ("a" + m, arr)
             return psym(name)
+        if m == "any" and not args and not kwargs:
+            return self.c_numpy_any([arr], {}, node, ms)
         if m == "fill":
             self.I.trace.append(Op("SliceAssign", dst=arr, src=args[0], aug=None, where=self.I.where(node, ms),
                                    stack=tuple(self.I.call_stack), node=node))
@@ -714,6 +721,17 @@ class ExtLib:
 
     def c_numpy_floor(self, a, k, n, ms):
         return self._unary("floor")(a, k, n, ms)
+
+    def c_numpy_rint(self, a, k, n, ms):
+        return self._unary("rint")(a, k, n, ms)
+
+    c_numpy_round = c_numpy_around = c_numpy_rint
+
+    def c_numpy_ceil(self, a, k, n, ms):
+        return self._unary("ceil")(a, k, n, ms)
+
+    def c_numpy_trunc(self, a, k, n, ms):
+        return self._unary("trunc")(a, k, n, ms)
 
     def _binary(self, name, a, k, n, ms):
         if isinstance(a[0], Arr) or isinstance(a[1], Arr):
@@ -1086,6 +1104,52 @@ class ExtLib:
                 raise NeedDecision(key, "%s at %s" % (key, self.I.where(n, ms)))
             return d
         raise Unsupported("allclose of %r, %r" % (x, y))
+
+    def c_numpy_any(self, a, k, n, ms):
+        """`x.any()` / `np.any(x)` of caller data that nothing has written yet: both outcomes are possible; on the false outcome
+        the array is identically zero, so its initial contents are replaced by 0 for the whole path (a shortcut that is exact
+        for an all-zero operand verifies, one that also skips work owed to another operand does not)"""
+        x = a[0]
+        if len(a) != 1 or k or not isinstance(x, Arr) or x.part is not None or x.perm is not None:
+            raise Unsupported("numpy.any of %r at %s" % (x, self.I.where(n, ms)))
+        if arr_valfn(x) is not None and str(x.alloc.how).startswith("derived"):
+            raise Unsupported("numpy.any of a computed array at %s" % self.I.where(n, ms))
+        from .driver import written_allocs
+        if x.alloc.id in written_allocs(self.I.trace):
+            raise Unsupported("numpy.any of an array the analysed code has already written at %s" % self.I.where(n, ms))
+        lab = x.alloc.label.split(".")[-1]
+        lead = []
+        for ax, size in zip(x.axes, x.alloc.shape):
+            if ax[0] == "i" and not lead_done(lead):
+                v = simplify_scalar(ax[1])
+                if not isinstance(v, int):
+                    raise Unsupported("numpy.any of a view with a symbolic index at %s" % self.I.where(n, ms))
+                lead.append(v)
+            elif ax[0] == "r" and ax[1] == pconst(0) and ax[2] == to_pw(size):
+                lead.append(None)
+            else:
+                raise Unsupported("numpy.any of a partial view at %s" % self.I.where(n, ms))
+        fixed = []
+        for v in lead:
+            if v is None:
+                break
+            fixed.append(v)
+        if any(v is not None for v in lead[len(fixed):]):
+            raise Unsupported("numpy.any of a view fixed on an inner axis at %s" % self.I.where(n, ms))
+        names = []
+        if fixed:
+            names.append("%s[%s]" % (lab, ",".join(str(c) for c in fixed)))
+        else:
+            names.append(lab)
+            first = simplify_scalar(x.alloc.shape[0])
+            if isinstance(first, int) and first <= 3 and len(x.alloc.shape) >= 3:
+                names += ["%s[%d]" % (lab, c) for c in range(first)]      # a vector field: every component
+        from .regions import CURRENT_CASE, NeedDecision
+        key = "any(%s)" % ";".join(names)
+        d = CURRENT_CASE[0].decision(key)
+        if d is None:
+            raise NeedDecision(key, "%s at %s" % (key, self.I.where(n, ms)))
+        return d
 
     # ---- pyfftw
     def c_pyfftw_FFTW(self, a, k, n, ms):
